@@ -5,6 +5,7 @@ import (
 	"time"
 
 	"github.com/nspcc-dev/dbft"
+	"github.com/nspcc-dev/dbft/verifh/mon"
 	"github.com/nspcc-dev/dbft/verifh/vnet"
 )
 
@@ -236,5 +237,61 @@ func DirectedNestedTx(rng *rand.Rand, mons ...vnet.Monitor) *Built {
 		}
 	}
 	finish(c)
+	return &Built{C: c, Spec: Spec{Profile: cfg.Profile, Idx: -1, Seed: cfg.Seed}}
+}
+
+// DirectedLatentCV: the recorded C11 finding. Node 0 of seven validators
+// holds change-view requests a->1, b->1, own->1, c->2, d->2: five (= M)
+// requests for view >= 1 that were only ever counted for view 2. The stored
+// request a->1 is then delivered again.
+func DirectedLatentCV(m *mon.Hygiene) *Built {
+	cfg := vnet.Config{Seed: 991, Profile: "directed-latent-cv", N: 7, BaseHeight: 8, Heights: 1, AMEV: -1, TPB: time.Second,
+		Epoch: time.Date(2031, 5, 1, 0, 0, 0, 0, time.UTC).UnixNano(), MaxSteps: 1000}
+	cfg.GenesisTs = uint64(cfg.Epoch) - uint64(cfg.TPB)
+	cfg.K.SlowNode, cfg.K.ResetDelayNode = -1, -1
+	cfg.Roles = []vnet.Role{vnet.Honest, vnet.Silent, vnet.Silent, vnet.Silent, vnet.Silent, vnet.Silent, vnet.Silent}
+	c := vnet.NewCluster(cfg, m)
+	x := c.Nodes[0]
+	x.Start()
+	h := cfg.BaseHeight + 1 // 9: primary of view 0 is validator 2
+	mk := func(t dbft.MessageType, idx int, body any) *vnet.Payload {
+		return &vnet.Payload{T: t, Hgt: h, View: 0, Idx: uint16(idx), Body: body, Origin: -1}
+	}
+	for i := 1; i < 7; i++ { // everybody has been heard from
+		x.Receive(mk(dbft.RecoveryRequestType, i, &vnet.RecReq{Ts: 1}))
+	}
+	a := mk(dbft.ChangeViewType, 1, &vnet.ChView{NewView: 1, Ts: 1})
+	x.Receive(a)
+	x.Receive(mk(dbft.ChangeViewType, 3, &vnet.ChView{NewView: 1, Ts: 1}))
+	x.Timeout(h, 0, "scripted") // own request for view 1
+	x.Receive(mk(dbft.ChangeViewType, 4, &vnet.ChView{NewView: 2, Ts: 1}))
+	x.Receive(mk(dbft.ChangeViewType, 5, &vnet.ChView{NewView: 2, Ts: 1}))
+	dup := a.Clone()
+	m.Inject(c, x, mon.Probe{Class: "duplicate-ChangeView", AllowRecoveryReply: true, DupCV: a, Do: func() { x.Receive(dup) }})
+	finish(c)
+	return &Built{C: c, Spec: Spec{Profile: cfg.Profile, Idx: -1, Seed: cfg.Seed}}
+}
+
+// DirectedAmnesiacPrimary: the recorded C09 finding. The primary's proposal
+// reaches two backups, which commit; the primary restarts with empty state
+// and proposes another block that the third backup prepares. Afterwards the
+// network is synchronous.
+func DirectedAmnesiacPrimary(mons ...vnet.Monitor) *Built {
+	cfg := vnet.Config{Seed: 992, Profile: "directed-amnesiac-primary", N: 4, BaseHeight: 3, Heights: 2, AMEV: -1, TPB: time.Second,
+		Epoch: time.Date(2031, 5, 1, 0, 0, 0, 0, time.UTC).UnixNano(), MaxSteps: 4000, MaxClock: 80 * time.Second}
+	cfg.GenesisTs = uint64(cfg.Epoch) - uint64(cfg.TPB)
+	cfg.K = vnet.Knobs{Sync: true, SlowNode: -1, ResetDelayNode: -1}
+	cfg.Roles = make([]vnet.Role, 4)
+	c := vnet.NewCluster(cfg, mons...)
+	for i := 3; i >= 0; i-- {
+		c.Nodes[i].Start() // height 4: validator 0 is the primary and proposes at Start
+	}
+	deliverWhere(c, func(e *vnet.Envelope) bool { return e.P.T == dbft.PrepareRequestType && (e.To == 1 || e.To == 2) })
+	deliverWhere(c, func(e *vnet.Envelope) bool { return e.P.T == dbft.PrepareResponseType && (e.To == 1 || e.To == 2) })
+	// validators 1 and 2 have committed; everything else in flight is lost with the crash
+	c.Inflight = nil
+	c.NoteFault()
+	c.Nodes[0].Restart()
+	c.Run(nil)
 	return &Built{C: c, Spec: Spec{Profile: cfg.Profile, Idx: -1, Seed: cfg.Seed}}
 }
